@@ -121,8 +121,14 @@ func TestGoldenCorruptions(t *testing.T) {
 			binary.LittleEndian.PutUint32(x[int(p.Offset)+8+8+4:], 0x1000)
 			return x
 		}, "isg1.nameoffset"},
-		{"program dwords", func(x []byte) []byte { binary.LittleEndian.PutUint32(x[int(dxil.Offset)+8+4:], le32(x, int(dxil.Offset)+12)+1); return x }, "dxil.size"},
-		{"bitcode size", func(x []byte) []byte { binary.LittleEndian.PutUint32(x[int(dxil.Offset)+8+20:], le32(x, int(dxil.Offset)+28)-4); return x }, "dxil.bitcodesize"},
+		{"program dwords", func(x []byte) []byte {
+			binary.LittleEndian.PutUint32(x[int(dxil.Offset)+8+4:], le32(x, int(dxil.Offset)+12)+1)
+			return x
+		}, "dxil.size"},
+		{"bitcode size", func(x []byte) []byte {
+			binary.LittleEndian.PutUint32(x[int(dxil.Offset)+8+20:], le32(x, int(dxil.Offset)+28)-4)
+			return x
+		}, "dxil.bitcodesize"},
 		{"bitcode magic", func(x []byte) []byte { x[bcOff] = 'X'; return x }, "bc.stream.magic"},
 		{"module block length", func(x []byte) []byte { binary.LittleEndian.PutUint32(x[bcOff+8:], le32(x, bcOff+8)+1); return x }, "bc.stream.blocklen"},
 		{"psv string table size", func(x []byte) []byte {
